@@ -1,7 +1,7 @@
 """C20 CLI: convert round-trips, format is valid, check's verdict is right.  Runs the real rqcow2
 binary built from /repo's working tree on scratch files; the independent checker is the extracted
 Coq specification (driver/qdrv)."""
-import os, json, shutil, struct, subprocess, collections
+import hashlib, os, json, shutil, struct, subprocess, collections
 import qv, common
 
 
@@ -47,6 +47,7 @@ def run(tier, seed, replay):
     d = qv.workdir('c20')
     finds = []
     stats = collections.Counter()
+    distinct_inputs = set()
     kfs = [f for f in qv.known_findings().get('findings', []) if f.get('property') == 'C20']
     # ---------- convert round trip
     CS = 65536
@@ -74,6 +75,7 @@ def run(tier, seed, replay):
             back = os.path.join(d, 'out%d_%s.raw' % (k, content))
             open(raw, 'wb').write(data)
             stats['convert'] += 1
+            distinct_inputs.add(('convert', sz, hashlib.sha1(data).hexdigest()))
             r1 = run_cli(binp, ['convert', '-f', 'raw', '-O', 'qcow2', '-o', q, raw])
             if r1[0] != 0:
                 finds.append(('convert-to', sz, 'raw -> qcow2 of a %d-byte %s file: exit %s %s' % (sz, content, r1[0], r1[2].strip().split('\n')[0][:160] if r1[0] != 'timeout' else 'did not terminate')))
@@ -107,6 +109,7 @@ def run(tier, seed, replay):
     for (mb, cb, ro) in fmts:
         p = os.path.join(d, 'f_%d_%d_%d.qcow2' % (mb, cb, ro))
         stats['format'] += 1
+        distinct_inputs.add(('format', mb, cb, ro))
         r = run_cli(binp, ['format', '-s', str(mb), '-c', str(cb), '-r', str(ro), p])
         if r[0] != 0:
             if 'too many meta clusters for single refcount block' in r[2]:
@@ -130,6 +133,7 @@ def run(tier, seed, replay):
     goods = goods_all[:6] + goods_all[6:][-6:]
     for p in goods:
         stats['check'] += 1
+        distinct_inputs.add(('check', hashlib.sha1(open(p, 'rb').read()).hexdigest()))
         r = run_cli(binp, ['check', p])
         if r[0] != 0:
             finds.append(('check-rejects-good', os.path.basename(p), 'check fails on a consistent image %s: %s' % (os.path.basename(p), (r[2].strip().split('\n') or [''])[-1][:160])))
@@ -199,7 +203,7 @@ def run(tier, seed, replay):
         violations.append({'replay': pth})
         print('  finding [%s]: %s' % (cls, desc[:300]))
     n = sum(stats.values())
-    cov = {'evaluations': n, 'distinct_nontrivial': n,
+    cov = {'evaluations': n, 'distinct_nontrivial': len(distinct_inputs), 'nontrivial_rule': 'distinct inputs: (size, content) of a convert round trip, format parameters, content of a checked consistent image',
            'rule': 'convert round trips over raw sizes incl. 0, sub-block, non-multiples of block and cluster size, multi-chunk x contents; format over (size MiB, cluster_bits, refcount_order); check on consistent images and on copies with an injected leak near / far in the first refcount block',
            'samples': [{'sizes': sizes[:6]}, {'formats': fmts[:4]}], 'counts': dict(stats), 'findings': len(finds)}
     return common.finish('C20', tier, seed, 'exploration', gate, cov, t, violations, known,
